@@ -294,15 +294,18 @@ def explore(recipe: dict, frng: Rng, tier: dict, root: str, idx: int, only_kinds
         # fault during recovery: a second fault on an event that only exists after the first fired
         if rec["fired"] and "at" in plan and only_kinds is None:
             k0 = rec["fired"][0]["i"]
-            later = [e for e in rec["events"] if e["i"] > k0 and e["op"] in ("close", "flush", "write", "err.write", "err.flush")]
+            later = [e for e in rec["events"] if e["i"] > k0 and (e["op"] in ("close", "flush", "write", "err.write", "err.flush")
+                                                                    or e["op"].startswith("os."))]
+            later.sort(key=lambda e: (not e["op"].startswith("os."), e["i"]))   # clean-up calls (unlink / replace) first
             for e in later[:3]:
                 if doubles_left <= 0:
                     break
-                if tier["doubles"] < 10**8 and not drng.chance(0.15):
+                if tier["doubles"] < 10**8 and not e["op"].startswith("os.") and not drng.chance(0.15):
                     continue
                 doubles_left -= 1
-                f2 = {"kind": "deferred" if e["op"] in ("close", "flush") else "eio" if e["op"] == "write" else "streamfail",
-                      "op": e["op"], "errno": "EIO" if not e["op"].startswith("err") else "EPIPE"}
+                f2 = {"kind": "deferred" if e["op"] in ("close", "flush") else "eio" if e["op"] == "write"
+                      else "callfail" if e["op"].startswith("os.") else "streamfail",
+                      "op": e["op"], "errno": "EACCES" if e["op"].startswith("os.") else "EIO" if not e["op"].startswith("err") else "EPIPE"}
                 p2 = {"at": {**plan["at"], e["i"]: f2}}
                 rec2 = engine.run_save(recipe, p2, root)
                 record(p2, rec2)
